@@ -32,7 +32,7 @@ def run(rep, ctx, tier):
         g = ctx.graph(a)
         rep.count("bodies_in_scope", len(g.scope))
         rep.count("edges", g.n_edges)
-        comps = R1.statement_components(a) + R1.proof_components(a) + R1.key_components(a)
+        comps = R1.statement_components(a) + R1.proof_components(a, ctx.facts) + R1.key_components(a)
         for sk, info in T.SCHEMES.items():
             if info is a.info:
                 for callee in T.VK_CALLS.get(sk, []):
